@@ -65,7 +65,7 @@ def _generate_once(p, header, source, *, ekf, cfg, namespace, container, reverse
     return objs
 
 
-def generate(p, outdir, *, ekf=True, cse=True, k=5.0, max_dt=0.1, namespace="gen", name="gen", container="list", reverse=False, noise=None, cal_container="set", warm_program=None):
+def generate(p, outdir, *, ekf=True, cse=True, k=5.0, max_dt=0.1, namespace="gen", name="gen", container="list", reverse=False, noise=None, cal_container="set", warm_program=None, config_form="auto"):
     """Run the real formak.cpp entry point (compile / compile_ekf) for program p.  Returns (header, source).
 
     History dimension of the *generator*: if warm_program is given, a filter for that (differently shaped) program is
@@ -78,9 +78,16 @@ def generate(p, outdir, *, ekf=True, cse=True, k=5.0, max_dt=0.1, namespace="gen
     os.makedirs(gdir, exist_ok=True)
     header = os.path.join(gdir, f"{name}.h")
     source = os.path.join(outdir, f"{name}.cpp")
-    cfg = cpp.Config(common_subexpression_elimination=cse, innovation_filtering=k, max_dt_sec=max_dt)
+    # both documented forms of `config` are exercised: a cpp.Config object, or the equivalent dict
+    # (auto: the dict form whenever filtering is disabled, the object form otherwise)
+    if config_form == "auto":
+        config_form = "dict" if k is None else "object"
+    if config_form == "dict":
+        cfg = {"common_subexpression_elimination": cse, "innovation_filtering": k, "max_dt_sec": max_dt}
+    else:
+        cfg = cpp.Config(common_subexpression_elimination=cse, innovation_filtering=k, max_dt_sec=max_dt)
     kw = dict(ekf=ekf, cfg=cfg, namespace=namespace, container=container, reverse=reverse, noise=noise, cal_container=cal_container)
-    info = {"warm": None, "identical": None}
+    info = {"warm": None, "identical": None, "config_form": config_form}
     if warm_program is not None:
         wdir = os.path.join(outdir, "warm", "generated", "formak")
         os.makedirs(wdir, exist_ok=True)
